@@ -4,6 +4,7 @@ import (
 	"bytes"
 	"context"
 	"fmt"
+	"github.com/segmentio/ksuid"
 	"sort"
 	"strings"
 	"sync"
@@ -50,7 +51,7 @@ func c05treeDesc(t map[string][]byte) string {
 func TestC05(t *testing.T) {
 	rep := lib.NewReport("C05", "exploration")
 	defer rep.Finish(t)
-	rep.Rule = "trees = all maps from {+p (sorts before .datamon), q, d/r} to {absent,c1,c2} (27); ALL 729 ordered pairs (A,B) (identical - the target is then a second bundle holding the same tree -, disjoint, same path same/different content, same content under another path, empty either side): core.Diff (archive vs archive, and local copy vs archive) = set computed from the two maps, each path once with the right type and entries; core.Update(target=B, local copy of A) leaves the destination (data files and .datamon metadata) byte-identical to a fresh Publish of B; destination stores: map store and localfs; distinct = distinct (A,B) pairs"
+	rep.Rule = "trees = all maps from {+p (sorts before .datamon), q, d/r} to {absent,c1,c2} (27); ALL 729 ordered pairs (A,B) (identical - the target is then a second bundle holding the same tree -, disjoint, same path same/different content, same content under another path, empty either side): core.Diff (archive vs archive, and local copy vs archive) = set computed from the two maps, each path once with the right type and entries; core.Update(target=B, local copy of A) leaves the destination (data files and .datamon metadata) byte-identical to a fresh Publish of B; destination stores: map store and localfs; plus, for A != B, the history 'download X (tree A), delete X, upload B under the preserved ID X, diff and update the old copy'; distinct = distinct (A,B) pairs"
 	L := 64
 	w := NewWorld()
 	w.Blob.NoJournal = true
@@ -207,6 +208,73 @@ func TestC05(t *testing.T) {
 						for _, k := range wk {
 							if !bytes.Equal(got[k], wantFiles[k]) {
 								rep.Violate("C05|update-file-differs|"+kind+"|"+shape, fmt.Sprintf("%s: %q differs from a fresh download of B", desc, k), rp)
+							}
+						}
+					})
+				}
+				// a history that re-uses an identifier: the local copy holds bundle X (tree A); X is deleted and tree B is
+				// uploaded under the same preserved ID; diff and update of the old copy must still bring it to B
+				if a != b {
+					guard(rep, "C05|recreated-id", func() string { return desc }, rp, func() {
+						repo := fmt.Sprintf("x%d-%d", a, b)
+						if err := mkRepo(st, repo); err != nil {
+							panic(err)
+						}
+						kid, _ := ksuid.NewRandom()
+						id := kid.String()
+						if _, err := uploadFiles(st, repo, A, L, 0, core.BundleID(id)); err != nil {
+							rep.Violate("C05|recreated-id|setup-upload-error", desc+": "+err.Error(), rp)
+							return
+						}
+						dest := newDest(false)
+						if _, err := downloadBundle(st, repo, id, dest, 0); err != nil {
+							rep.Violate("C05|recreated-id|setup-download-error", desc+": "+err.Error(), rp)
+							return
+						}
+						if err := core.DeleteBundle(repo, st, id); err != nil {
+							rep.Violate("C05|recreated-id|delete-error", desc+": "+err.Error(), rp)
+							return
+						}
+						if _, err := uploadFiles(st, repo, B, L, 0, core.BundleID(id)); err != nil {
+							rep.Violate("C05|recreated-id|re-upload-with-preserved-id-fails", desc+": "+err.Error(), rp)
+							return
+						}
+						diff, err := core.Diff(context.Background(), core.NewBundle(core.ConsumableStore(dest), core.Logger(nopLogger)),
+							core.NewBundle(core.Repo(repo), core.ContextStores(st), core.BundleID(id), core.Logger(nopLogger)))
+						rep.Eval(1)
+						if err != nil {
+							rep.Violate("C05|recreated-id|diff-error", desc+": "+err.Error(), rp)
+						} else {
+							got := map[string]string{}
+							for _, e := range diff.Entries {
+								got[e.Name] = e.Type.String()
+							}
+							if fmt.Sprint(got) != fmt.Sprint(want) {
+								rep.Violate("C05|recreated-id|diff-wrong|"+shape, fmt.Sprintf("%s (bundle ID re-used for B after the bundle holding A was deleted): diff %v want %v", desc, got, want), rp)
+							}
+						}
+						err = core.Update(context.Background(), core.NewBundle(core.Repo(repo), core.ContextStores(st), core.BundleID(id), core.Logger(nopLogger)),
+							core.NewBundle(core.ConsumableStore(dest), core.Logger(nopLogger)))
+						rep.Eval(1)
+						if err != nil {
+							rep.Violate("C05|recreated-id|update-error|"+shape, desc+": "+err.Error(), rp)
+							return
+						}
+						fresh := newDest(false)
+						if _, err := downloadBundle(st, repo, id, fresh, 0); err != nil {
+							rep.Violate("C05|recreated-id|fresh-download-error", desc+": "+err.Error(), rp)
+							return
+						}
+						got, _ := storeFiles(dest)
+						wantFiles, _ := storeFiles(fresh)
+						if strings.Join(keysOf(got), ",") != strings.Join(keysOf(wantFiles), ",") {
+							rep.Violate("C05|recreated-id|update-differs-from-fresh-download|"+shape, fmt.Sprintf("%s: destination has %v, fresh download of B has %v", desc, keysOf(got), keysOf(wantFiles)), rp)
+							return
+						}
+						for k := range wantFiles {
+							if !bytes.Equal(got[k], wantFiles[k]) {
+								rep.Violate("C05|recreated-id|update-file-differs|"+shape, fmt.Sprintf("%s: %q differs from a fresh download of B", desc, k), rp)
+								return
 							}
 						}
 					})
